@@ -362,7 +362,11 @@ def contracts(p: Program) -> list[str]:
 def setup(repo: str) -> tuple[Program, list[str]]:
     p = build(repo)
     add_macros(p)
-    return p, contracts(p)
+    targets = contracts(p)
+    from contracts.dispatch import add_dispatch
+    targets += [t for t in add_dispatch(p)
+                if t.endswith(('SUBMIT_BATCH', 'UPDATE'))]
+    return p, targets
 
 
 def bounded(tier: str) -> dict:
@@ -405,4 +409,7 @@ def bounded(tier: str) -> dict:
         'Manager.handle_update': manager,
         'Manager.send_up_or_schedule_tasks': manager,
         'Manager.handle_result_from_below': manager,
+        **{k: g for k, g in __import__(
+            'contracts.dispatch', fromlist=['x']).bounded_dispatch(
+                tier).items() if k.endswith(('SUBMIT_BATCH', 'UPDATE'))},
     }
